@@ -61,6 +61,10 @@ def arm_env(arm):
         for n in ast.walk(st):
             if isinstance(n, ast.Assign) and len(n.targets) == 1 and isinstance(n.targets[0], ast.Name):
                 env.setdefault(n.targets[0].id, n.value)
+            if isinstance(n, ast.Assign) and len(n.targets) == 1 and isinstance(n.targets[0], ast.Tuple) and isinstance(n.value, ast.Tuple) and len(n.targets[0].elts) == len(n.value.elts):
+                for t, v in zip(n.targets[0].elts, n.value.elts):
+                    if isinstance(t, ast.Name):
+                        env.setdefault(t.id, v)
     # lists filled by a loop over <subj>.<slot>._expressions
     for st in arm.body:
         for n in ast.walk(st):
@@ -74,12 +78,15 @@ def arm_env(arm):
 
 
 def result_lambdas(arm):
-    """Lambdas that are the arm's result: returned, or pushed on the result stack."""
+    """Closures that are the arm's result: returned lambdas / nested defs, or pushed on the result stack."""
     out = []
+    defs = {n.name: n for st in arm.body for n in ast.walk(st) if isinstance(n, ast.FunctionDef)}
     for st in arm.body:
         for n in ast.walk(st):
             if isinstance(n, ast.Return) and isinstance(n.value, ast.Lambda):
                 out.append(n.value)
+            if isinstance(n, ast.Return) and isinstance(n.value, ast.Name) and n.value.id in defs:
+                out.append(defs[n.value.id])
             if isinstance(n, ast.Call) and isinstance(n.func, ast.Attribute) and n.func.attr == "append" and src(n.func.value) == "result_stack" and n.args and isinstance(n.args[0], ast.Lambda):
                 out.append(n.args[0])
     return out
@@ -252,6 +259,38 @@ def check(prog, rep):
                        f"x[{src(idx)}] uses a position looked up in {mapname} by variable name" if ok else
                        f"x[{src(idx)}] at line {lam.lineno} is not indexed through {mapname}[<variable>.name] (origin: {src(origin)[:50] if origin is not None else 'unknown'}): it would ignore the caller's variable order",
                        loc=f"{fi.module.rel}:{lam.lineno}", detail=f"subscript@{_arm_kind(lam, fi)}")
+    # helpers of the compiler module that build gather closures over the point x for the builders
+    for h in prog.functions.values():
+        if h.module is not rec.module or h in builders or h.parent is not None or h.cls is not None:
+            continue
+        called_by_builders = [c for b in builders for c in calls(b.node, local=False) if dotted(c.func) == h.name]
+        if not called_by_builders:
+            continue
+        hparams = [a.arg for a in h.node.args.args]
+        hassigns = local_assignments(h.node)
+        for lam in [n for n in ast.walk(h.node) if isinstance(n, ast.Lambda)]:
+            x = lam.args.args[0].arg
+            defaults = dict(zip([a.arg for a in lam.args.args][::-1], lam.args.defaults[::-1]))
+            for sub_ in [n for n in ast.walk(lam.body) if isinstance(n, ast.Subscript) and isinstance(n.value, ast.Name) and n.value.id == x]:
+                nsub += 1
+                idx = sub_.slice
+                o = defaults.get(idx.id) if isinstance(idx, ast.Name) else idx
+                if isinstance(o, ast.Name) and o.id in hparams:
+                    # the index is the helper's parameter: every call site must pass a position array looked up in the map
+                    pos = hparams.index(o.id)
+                    good = True
+                    for c in called_by_builders:
+                        arg = c.args[pos] if pos < len(c.args) else None
+                        b = [bb for bb in builders if any(c is y for y in ast.walk(bb.node))][0]
+                        ba = local_assignments(b.node)
+                        cands = [v for v in ba.get(arg.id, []) if isinstance(v, ast.AST)] if isinstance(arg, ast.Name) else [arg]
+                        if not cands or not all(_from_map(v, b.node.args.args[1].arg) for v in cands):
+                            good = False
+                    rep.ob("R01.5", h.name, good, f"x[{src(idx)}]: the index is the position array its callers looked up in the name->position map" if good else f"x[{src(idx)}]: a caller passes an index that was not looked up in the name->position map", loc=f"{h.module.rel}:{lam.lineno}", detail=f"helper-subscript:{src(idx)}")
+                else:
+                    rep.ob("R01.5", h.name, False,
+                           f"x[{src(idx)}] with {src(idx)} = `{src(o)[:50] if o is not None else '?'}`: the index is DERIVED from the looked-up positions (end points / min / max / slice), not the position array itself; equal end points do not imply equal order, so for a variable list that keeps the vector's variables contiguous but permuted the closure reads the wrong entries",
+                           loc=f"{h.module.rel}:{lam.lineno}", detail=f"helper-subscript:{src(idx)}")
     rep.saw("x[...] subscripts in compiled closures", nsub)
 
     # ------------------------------------------------------------------ R01.6 Parameter read at call time
@@ -288,10 +327,11 @@ def check(prog, rep):
                 except tags.Unknown as e:
                     rep.undecided(f"R01.7: {fi.name}[{k}]: {e}")
                     continue
-                rep.ob("R01.7", f"{fi.name}[{k}]", ct == et,
-                       f"closure and {k}.evaluate both denote {_show(et)}" if ct == et else
-                       f"the compiled closure denotes {_show(ct)} but {k}.evaluate denotes {_show(et)}",
-                       loc=f"{fi.module.rel}:{lam.lineno}", detail="evaluate<->closure")
+                want, gnote = _expected_under_guard(et, lam, a, d.subject, env)
+                rep.ob("R01.7", f"{fi.name}[{k}]", ct == want,
+                       f"closure and {k}.evaluate both denote {_show(want)}{gnote}" if ct == want else
+                       f"the compiled closure denotes {_show(ct)} but {k}.evaluate denotes {_show(et)}{gnote}",
+                       loc=f"{fi.module.rel}:{lam.lineno}", detail="evaluate<->closure" + (":guarded" if gnote else ""))
             # element evaluators appended in loops must evaluate the loop element
             for st in a.body:
                 for loop in [n for n in ast.walk(st) if isinstance(n, ast.For)]:
@@ -316,6 +356,50 @@ def check(prog, rep):
         "compositions; floating-point equality of the two routes is not decided."
     )
     rep.assume("NumPy functions compute the mathematical function of their name (reference table F9)")
+
+
+def _expected_under_guard(et, lam, arm, subject, env):
+    """A result closure built under a guard that makes two operand slots THE SAME VECTOR (identity, or equal ordered
+    variable lists) may treat them as one: the expected term is rewritten accordingly.  A guard that does not establish
+    that (e.g. equal names and sizes) leaves the expectation unchanged."""
+    from ..astutil import dominating_guards, disjuncts
+
+    def slot(n):
+        if isinstance(n, ast.Attribute) and isinstance(n.value, ast.Name) and n.value.id == subject:
+            return n.attr
+        if isinstance(n, ast.Name) and isinstance(env.get(n.id), ast.Attribute) and src(env[n.id].value) == subject:
+            return env[n.id].attr
+        if isinstance(n, ast.Attribute) and n.attr == "_variables":
+            return slot(n.value)
+        return None
+
+    for test, pol in dominating_guards(lam):
+        if not pol or not any(test is x for st in arm.body for x in ast.walk(st)):
+            continue
+        pairs = []
+        ok_all = True
+        for dj in disjuncts(test):
+            if isinstance(dj, ast.Compare) and len(dj.ops) == 1 and isinstance(dj.ops[0], (ast.Is, ast.Eq)):
+                a, b = slot(dj.left), slot(dj.comparators[0])
+                ordered = isinstance(dj.ops[0], ast.Is) or (src(dj.left).endswith("._variables") and src(dj.comparators[0]).endswith("._variables"))
+                if a and b and a != b and ordered:
+                    pairs.append((a, b))
+                    continue
+            ok_all = False
+        if pairs and ok_all:
+            a, b = pairs[0]
+
+            def sub(t):
+                if isinstance(t, tuple):
+                    if t == ("VEC", b):
+                        return ("VEC", a)
+                    return tuple(sub(x) for x in t)
+                return t
+
+            return sub(et), f" (under the guard `{src(test)[:50]}` the operands are the same vector)"
+        if pairs or any(slot(x) for dj in disjuncts(test) for x in ast.walk(dj)):
+            return et, f" -- its guard `{src(test)[:70]}` does not establish that the operands are the same vector in the same order"
+    return et, ""
 
 
 def _show(t):
